@@ -2169,7 +2169,7 @@ def stage_mci_glr(work, tier, seed):
     # the exploration visits every token string up to maxlen: about nterm^maxlen states per
     # table, each a whole GLR frontier.  A budget on that estimate keeps the stage within
     # minutes: curated and structured grammars first, then a seeded sample of the others.
-    budget = 400000 if tier == "quick" else 2500000
+    budget = 400000 if tier == "quick" else 1000000
     cand = [c for c in corpus(tier, seed)
             if "meta" not in c[2] and len(c[1]["terms"]) <= (3 if tier == "quick" else 4)
             and tab["nodis"].get("%s|rn" % c[0]) is not None]
